@@ -23,3 +23,7 @@ def build(repo, tier, seed):
     b = run.rt_call("C12", "genuine_fresh", {"seed": seed, "n": 40 if tier == "quick" else 1500})
     r.bounded.append(b if "name" in b else {"name": "genuine_fresh", "error": b.get("error", b)})
     return r
+
+def fallback(repo, tier, seed):
+    b = run.rt_call("C12", "bounded_search", {"seed": seed})
+    return [b if "name" in b else {"name": "bounded_search", "error": b.get("error", b)}]
